@@ -236,8 +236,10 @@ Visits(n0, order, bits, extra) ==
 \* <<bestn, bestc>>: the EARLIEST configuration of minimal cost (index 0 = the starting one)
 BestAlong(vc, bestn, bestc) ==
     LET cost(k) == IF k = 0 THEN bestc ELSE vc[k][2]
-        kb == CHOOSE k \in 0..Len(vc) :
-                 \A j \in 0..Len(vc) : cost(k) < cost(j) \/ (cost(k) = cost(j) /\ k <= j)
+        vals == {cost(k) : k \in 0..Len(vc)}
+        minc == CHOOSE x \in vals : \A y \in vals : x <= y
+        I    == {k \in 0..Len(vc) : cost(k) = minc}
+        kb   == CHOOSE k \in I : \A j \in I : k <= j
     IN  IF kb = 0 THEN <<bestn, bestc>> ELSE <<vc[kb][1], vc[kb][2]>>
 
 \* the count vector chosen for a layer with intended NE16 cost
